@@ -341,8 +341,22 @@ func (x *ctx) msm(rng *rand.Rand, size int) {
 			known = append(known, e)
 		}
 	}
+	// one list in three has scalars that share structure ACROSS the terms (all multiples of 2^j, all below 2^j, all
+	// equal): whole digit columns are then empty or identical, which per-term random scalars never produce
+	shared := rng.IntN(3)
+	sj := []uint{6, 7, 8, 12, 16, 64, 128, 200, 248, 252}[rng.IntN(10)]
+	sameS := gen.RandScalar(rng, cat)
 	for i := 0; i < size; i++ {
 		s := gen.RandScalar(rng, cat)
+		switch {
+		case shared != 0:
+		case x.c.Stream != "" && len(x.c.Stream)%3 == 0:
+			s = new(big.Int).Lsh(new(big.Int).Rsh(s, sj), sj) // multiples of 2^j
+		case len(x.c.Stream)%3 == 1:
+			s = new(big.Int).Rsh(s, 255-sj%200) // all small
+		default:
+			s = sameS
+		}
 		e := known[rng.IntN(len(known))]
 		scalars = append(scalars, libScalar(s))
 		points = append(points, e.Lib)
@@ -497,7 +511,7 @@ func main() {
 	for i := 0; i < r.Pick(200, 4000); i++ {
 		cases = append(cases, Case{Kind: "single", Stream: fmt.Sprintf("c03/single/%d", i)})
 	}
-	sizes := []int{0, 1, 2, 3, 8, 93, 94, 95, 189, 190, 191}
+	sizes := []int{0, 1, 2, 3, 8, 31, 32, 33, 63, 64, 65, 93, 94, 95, 127, 128, 129, 189, 190, 191, 255, 256, 257, 300, 379, 380, 381, 383, 384, 385}
 	big1 := []int{500, 800, 1025, 1500, 32771}
 	if !r.Quick {
 		big1 = []int{499, 500, 501, 799, 800, 801, 1000, 1023, 1024, 1025, 1500, 2047, 2048, 2049, 4097, 16385, 32767, 32768, 32770, 32771, 65539}
